@@ -12,6 +12,7 @@ type boxOpts struct {
 	epochMax  int  // events injected between two forced quiescent points (1..epochMax)
 	big       bool // astronomically large pool blocks too
 	tight     bool // exhaustion bias (C07)
+	pinned    bool // pinned-pool bias (C18)
 	finalSync bool // C03: two forced re-syncs at the end (second must not write)
 }
 
@@ -23,7 +24,7 @@ func boxHistory(c *vfCase, mon boxMonFlags, o boxOpts, genSeed, schedSeed uint64
 }
 
 func boxHistoryOpt(c *vfCase, mon boxMonFlags, o boxOpts, genSeed, schedSeed uint64, crashAt int, faults []int, recordLabels bool) *cbox {
-	g := &boxGen{r: vfNewRand(genSeed), big: o.big, tight: o.tight}
+	g := &boxGen{r: vfNewRand(genSeed), big: o.big, tight: o.tight, pinned: o.pinned}
 	cb := newCbox(c, mon, schedSeed)
 	cb.k.CrashAt = crashAt
 	cb.k.RecordLabels = recordLabels
@@ -567,6 +568,6 @@ func (cb *cbox) gainedThenInadmissible(k string, a []string, w0 int, req *vfSvcR
 }
 
 func TestVerif_C18(t *testing.T) {
-	boxRun(t, "C18", boxMonFlags{c18: true}, boxOpts{events: 24, epochMax: 3}, vfSizes{Quick: 60, Thorough: 1500},
+	boxRunOpt(t, "C18", boxMonFlags{c18: true}, func(c *vfCase) boxOpts { return boxOpts{events: 24, epochMax: 3, pinned: c.Idx%2 == 0} }, vfSizes{Quick: 60, Thorough: 1500},
 		"every call of the pool handler is compared with the previous one: pools and namespaces (by value, order-free) must have changed; non-trivial = distinct delivered resource set")
 }
